@@ -71,6 +71,14 @@ def load(path: Union[str, DDSPath, pathlib.Path]) -> Any:
         # This path is produced by the current evaluation. The paths are only committed at the end of an
         # evaluation: the store would still serve the previous content (or nothing at all).
         key = _eval_ctx.requested_paths[path_]
+    elif (
+        _eval_ctx is not None
+        and _eval_ctx.resolved_loads is not None
+        and path_ in _eval_ctx.resolved_loads
+    ):
+        # This path has been resolved by the analysis of the current evaluation and its content is part of
+        # the signatures: serve that content, even if another process has committed the path again since.
+        key = _eval_ctx.resolved_loads[path_]
     else:
         key = _store().fetch_paths([path_]).get(path_)
     if key is None:
@@ -363,7 +371,10 @@ def _eval_new_ctx(
         _logger.debug(
             f"_eval_new_ctx: assigning {len(store_paths)} store path(s) to context"
         )
-        _eval_ctx = _eval_ctx._replace(requested_paths=store_paths)
+        _eval_ctx = _eval_ctx._replace(
+            requested_paths=store_paths,
+            resolved_loads=OrderedDict(resolved_indirect_refs),
+        )
         present_blobs: Optional[Set[PyHash]]
         if extra_debug:
             present_blobs = set(
